@@ -31,12 +31,14 @@ func TestVerifReplay(_ *testing.T) {
 			}
 		}()
 		h()
+		vAllocWindowCheck()
 	}()
 	runtime.ReadMemStats(&ms1)
 	for _, l := range vReplay.out {
 		fmt.Println("VERIF-RESULT " + l)
 	}
-	if kind == "ok" && ms1.TotalAlloc-ms0.TotalAlloc > vAllocCeiling {
+	// total bytes allocated is only a usable native proxy for "one allocation above the ceiling" at the 2 GiB ceiling
+	if kind == "ok" && vAllocCeiling >= 1<<30 && ms1.TotalAlloc-ms0.TotalAlloc > vAllocCeiling {
 		kind, detail = "alloc", fmt.Sprintf("%d bytes allocated during the harness", ms1.TotalAlloc-ms0.TotalAlloc)
 	}
 	fmt.Println("VERIF-RESULT " + kind + " " + detail)
